@@ -23,9 +23,11 @@ DEPTH = {"quick": 3, "thorough": 4}
 
 WORLDS = [
     {"tables": {"T": {"cols": [["k", "int"], ["x", "int"], ["y", "int"]], "rows": [[1, 10, 100], [2, 20, 200], [3, 30, 300]]},
-                "R": {"cols": [["k", "int"], ["x", "int"]], "rows": [[1, 7], [3, 9], [4, 5]]}}},
+                "R": {"cols": [["k", "int"], ["x", "int"]], "rows": [[1, 7], [3, 9], [4, 5]]},
+                "Q": {"cols": [["k_right", "int"], ["q", "int"]], "rows": [[100, 1], [200, 2], [300, 5]]}}},
     {"tables": {"T": {"cols": [["k", "int"], ["x", "int"], ["y", "int"]], "rows": [[1, None, 100], [2, 20, None]]},
-                "R": {"cols": [["k", "int"], ["x", "int"]], "rows": [[2, 8]]}}},
+                "R": {"cols": [["k", "int"], ["x", "int"]], "rows": [[2, 8]]},
+                "Q": {"cols": [["k_right", "int"], ["q", "int"]], "rows": [[100, 2]]}}},
 ]
 
 
@@ -48,6 +50,9 @@ ALPHABET = [
     ["join", {"src": "R"}, "inner", [["eq", Cn("y"), src("R", "x")]]],
     # equality and inequality: R.k of a left row without a partner is null, not the value of T.k
     ["join", {"src": "R"}, "left", [["and", ["eq", src("T", "k"), src("R", "k")], ["gt", src("T", "y"), ["mul", src("R", "x"), lit(20)]]]]],
+    # a table whose column name looks like a name the polars backend may use internally
+    ["join", {"src": "Q"}, "left", [["lt", src("T", "k"), src("Q", "q")]]],
+    ["join", {"src": "Q"}, "inner", [["eq", src("T", "k"), src("Q", "q")]]],
     ["join", {"src": "T", "hist": [["group_by", [src("T", "k")]], ["summarize", [["m", ["max", src("T", "y")]]]], ["alias"]]}, "left",
      [["eq", src("T", "k"), ["col", "right", "k"]]]],  # the right operand dropped x and y: T.x / T.y must keep denoting the left columns
     ["alias", None, True],
@@ -67,8 +72,10 @@ def alphabet(st, hist):
 def pool(hist, mstates):
     """reference terms valid to *create* in this history"""
     refs = [src("T", c) for c in ("k", "x", "y")]
-    if any(e[0] == "join" for e in hist[1:]):
+    if any(e[0] == "join" and e[1].get("src") == "R" for e in hist[1:]):
         refs += [src("R", "k"), src("R", "x")]
+    if any(e[0] == "join" and e[1].get("src") == "Q" for e in hist[1:]):
+        refs += [src("Q", "k_right"), src("Q", "q")]
     for i, st in enumerate(mstates):
         if i == 0 or isinstance(st, M.Reject):
             continue
